@@ -58,6 +58,9 @@ func NewReader(r io.Reader, rd int) (*Reader, error) {
 	}
 	err = br.h.DecodeBinary(br.r)
 	if err != nil {
+		// The caller gets no Reader to close, so release the
+		// goroutines of the bgzf.Reader made here.
+		bg.Close()
 		return nil, err
 	}
 	br.lastChunk.End = br.r.LastChunk().End
